@@ -100,3 +100,10 @@ Example c08_example_repeated_chain :
   MethodsP.set_free s = true /\ MethodsP.sites s = 2 /\
   option_map (fun rt => (fst rt, cnt MethodsP.is_method_ev (snd rt))) (exec s (env0 (VStructV "S" [("h", VInt 5)]) [])) = Some ([], 2).
 Proof. vm_compute. repeat split. Qed.
+
+(* the value expression built for a field-operation chain contains exactly the method calls written in the chain (so evaluating it,
+   by the theorem above, calls each of them once) *)
+Theorem c08_chain_expression_has_the_written_methods : forall o base,
+  MethodsP.vmethods (apply_ops base o) = MethodsP.vmethods base + MethodsP.fop_methods o.
+Proof. exact MethodsP.vmethods_apply_ops. Qed.
+Print Assumptions c08_chain_expression_has_the_written_methods.
